@@ -82,7 +82,10 @@ func cyclicHostValues() []func() interface{} {
 }
 
 func budgetFor(src string) time.Duration {
-	return 2*time.Second + time.Duration(len(src))*time.Millisecond/10
+	// generous on purpose: the budget separates polynomial from exponential behaviour (which
+	// exceeds any budget within a few more bytes), it is not a performance requirement; CPU time
+	// of the evaluating thread still stretches 2-3x on a machine whose cores are all busy
+	return 10*time.Second + time.Duration(len(src))*time.Millisecond
 }
 
 func apiCase(src string, hv int, tag string) Case {
@@ -160,7 +163,7 @@ func growthCase(name string, gen func(d int) string, depths []int, id string) Ca
 		}
 		times = append(times, dur)
 		report = append(report, fmt.Sprintf("d=%d:%dB:%v", d, len(src), dur.Round(time.Microsecond)))
-		if dur > 1500*time.Millisecond {
+		if dur > 6*time.Second {
 			c.Oracle = fmt.Sprintf("%s: compile time grows super-polynomially: %s", name, strings.Join(report, " "))
 			c.OracleID = id
 			c.Want = "slow"
@@ -191,7 +194,7 @@ func hostGrowthCase() Case {
 			c.Oracle, c.OracleID = "panicked: "+trim(pan), "api-panic"
 			return c
 		}
-		if dur > 1500*time.Millisecond {
+		if dur > 6*time.Second {
 			c.Oracle, c.OracleID = "conversion time of a nested host list grows super-polynomially: "+strings.Join(report, " "), "api-superpoly"
 			c.Want = "slow"
 			return c
